@@ -69,8 +69,11 @@ func locsOf[T ast.Node](cf *eng.CFG, ns []T) []eng.Loc {
 func assignsTo(f *eng.Func, pred func(lhs ast.Expr) bool) []*ast.AssignStmt {
 	var out []*ast.AssignStmt
 	f.Walk(func(n ast.Node) bool {
-		if as, ok := n.(*ast.AssignStmt); ok {
-			for _, l := range as.Lhs {
+		if as, ok := n.(*ast.AssignStmt); ok && !eng.IsInlinedAssign(as) {
+			for i, l := range as.Lhs {
+				if eng.IsSelfAssign(f.Info(), as, i) {
+					continue
+				}
 				if pred(l) {
 					out = append(out, as)
 					break
@@ -430,6 +433,14 @@ func eqOperand(ft eng.Fact, isSubject func(ast.Expr) bool) (ast.Expr, bool) {
 	if isSubject(y) {
 		return x, true
 	}
+	// a parameter of a helper read in place stands for its argument
+	info := ft.C.F.Info()
+	if ax := eng.ArgExpr(info, x); ax != x && isSubject(ax) {
+		return y, true
+	}
+	if ay := eng.ArgExpr(info, y); ay != y && isSubject(ay) {
+		return x, true
+	}
 	return nil, false
 }
 
@@ -483,4 +494,89 @@ func countedOver(info *eng.Info, st ast.Stmt) ast.Expr {
 		return la
 	}
 	return nil
+}
+
+// elemLoop is a loop that visits every element of a list once, in order: `for _, v := range
+// L`, `for i := range L` or `for i := 0; i < len(L); i++` (the element then being L[i]).
+type elemLoop struct {
+	Stmt   ast.Stmt
+	Body   *ast.BlockStmt
+	Head   ast.Node // the node of the loop located in the control-flow graph (range operand or condition)
+	List   ast.Expr
+	IsElem func(e ast.Expr) bool
+}
+
+func elemLoopsOver(f *eng.Func, isList func(ast.Expr) bool) []elemLoop {
+	info := f.Info()
+	var out []elemLoop
+	f.Walk(func(n ast.Node) bool {
+		switch lp := n.(type) {
+		case *ast.RangeStmt:
+			if !isList(lp.X) {
+				return true
+			}
+			el := elemLoop{Stmt: lp, Body: lp.Body, Head: lp.X, List: lp.X}
+			val, key := lp.Value, lp.Key
+			el.IsElem = func(e ast.Expr) bool {
+				if val != nil {
+					if id, ok := val.(*ast.Ident); !ok || id.Name != "_" {
+						if eng.SameExpr(info, e, val) {
+							return true
+						}
+					}
+				}
+				if ix, ok := eng.Unparen(e).(*ast.IndexExpr); ok && key != nil {
+					return eng.SameExpr(info, ix.X, lp.X) && eng.SameExpr(info, ix.Index, key)
+				}
+				return false
+			}
+			out = append(out, el)
+		case *ast.ForStmt:
+			la := countedOver(info, lp)
+			if la == nil || !isList(la) {
+				return true
+			}
+			iv := eng.Unparen(lp.Cond).(*ast.BinaryExpr).X
+			el := elemLoop{Stmt: lp, Body: lp.Body, Head: lp.Cond, List: la}
+			el.IsElem = func(e ast.Expr) bool {
+				ix, ok := eng.Unparen(e).(*ast.IndexExpr)
+				return ok && eng.SameExpr(info, ix.X, la) && eng.SameExpr(info, ix.Index, iv)
+			}
+			out = append(out, el)
+		}
+		return true
+	})
+	return out
+}
+
+// memberFact: the fact states that a map lookup found its key: `m[k]` of a bool-valued
+// map tested directly, or the ok of `_, ok := m[k]`.  Returns the index expression.
+func memberFact(cf *eng.CFG, ft eng.Fact) (*ast.IndexExpr, bool) {
+	if ft.Tag != nil || !ft.Truth {
+		return nil, false
+	}
+	info := cf.F.Info()
+	if ix, ok := eng.Unparen(ft.Expr).(*ast.IndexExpr); ok {
+		if tv, ok := info.Types[ix.X]; ok {
+			if _, isMap := tv.Type.Underlying().(*eng.MapType); isMap {
+				return ix, true
+			}
+		}
+		return nil, false
+	}
+	o, truth, isB := ft.BoolVar()
+	if !isB || !truth {
+		return nil, false
+	}
+	rhs, idx := cf.LastAssign(ft.B, o)
+	ix, isIx := eng.Unparen(defOrNil(rhs)).(*ast.IndexExpr)
+	if !isIx || idx != 1 {
+		return nil, false
+	}
+	if tv, ok := info.Types[ix.X]; ok {
+		if _, isMap := tv.Type.Underlying().(*eng.MapType); isMap {
+			return ix, true
+		}
+	}
+	return nil, false
 }
